@@ -61,6 +61,11 @@ class Gen:
         n = wiregen.message_length(data)
         if n is not None and n > len(data) and n <= (1 << 27):
             return      # would leave the loader waiting for more bytes: not a complete-message history
+        if n is not None and 16 <= n < len(data):
+            # a message followed by more bytes: a raw write (what follows stays in the daemon's loader; the connection is not
+            # synchronised with again)
+            self.ops.append(("raw", cid, data))
+            return
         self.ops.append(("send", cid, data))
 
     def bus_call(self, cid, member, sig="", body=(), **kw):
